@@ -1,6 +1,9 @@
 #![no_main]
 use libfuzzer_sys::fuzz_target;
+use tvh::fuzzable::{all_parsers, decode_parse};
 
+// C18: no parser may panic on any string (a panic aborts the process = crash artefact)
 fuzz_target!(|data: &[u8]| {
-    let _ = tvh::hello_fuzz(data);
+    let s = decode_parse(data);
+    let _ = all_parsers(&s);
 });
